@@ -153,11 +153,10 @@ def eqVariant (le : LeafKind → List Nat → List Nat → Bool) (m : Mem) : Var
 end
 
 mutual
-/-- structural equality of decoded values, leaves compared by `le`
-    (zero-sized leaves are equal) -/
+/-- structural equality of decoded values, leaves compared by `le` -/
 def veq (le : LeafKind → List Nat → List Nat → Bool) : V → V → Bool
   | .unit, .unit => true
-  | .leaf k x, .leaf _ y => if x.length = 0 then true else le k x y
+  | .leaf k x, .leaf k' y => k == k' && le k x y
   | .rec_ a, .rec_ b => vseq le a b
   | .enm t a, .enm u b => if t = u then vseq le a b else false
   | _, _ => false
